@@ -1,6 +1,6 @@
 from props import cfg
 
-CFG = cfg('C08', refine=['Refine_subarea'], extract='Ex_C08', driver='c08',
+CFG = cfg('C08', refine=['Refine_subarea'], extra=['Props/C08_refuted.vo'], extract='Ex_C08', driver='c08',
           rule='every packet of every object PGPy emits (keys of each algorithm incl. protected forms under several ciphers, public twins, user '
                'attribute, signatures over the C02 option grid, messages: bodies x 4 compressions x filenames x signers, passphrase / RSA / ECDH '
                'encrypted) is split by an independent splitter and fed back one by one with trailing data: remaining buffer == trailing, '
